@@ -3,6 +3,9 @@
 package js
 
 import (
+	"bytes"
+	"io"
+
 	"github.com/tdewolff/parse/v2"
 )
 
@@ -55,4 +58,47 @@ func VerifErrPos() {
 		vAssert(perr.Column == k+1, "error-not-at-inserted-character")
 	}
 	vReach("errpos")
+}
+
+// VerifLexErrPos: the JS lexer may be driven on after an error. Every ErrorToken that steps
+// over an illegal character carries a *parse.Error whose line, column and context are the ones
+// Position computes for that character; a non-error token never leaves a *parse.Error behind;
+// at the end of the input Err() is io.EOF and not the position of an earlier error.
+func VerifLexErrPos() {
+	n := vRange("n", 0, vParam("N", 3))
+	b := vBytes("b", n)
+	for i := range b {
+		c := b[i]
+		vAssume(c == 'a' || c == ' ' || c == '\n' || c == '@' || c == '#' || c == 0x01 || c == ';' || c == '1' || c == '\\')
+	}
+	src := append([]byte(nil), b...)
+	z := parse.NewInputBytes(append(make([]byte, 0, n+1), b...))
+	l := NewLexer(z)
+	for step := 0; step < 2*n+3; step++ {
+		tt, data := l.Next()
+		if tt != ErrorToken {
+			_, isPerr := l.Err().(*parse.Error)
+			vAssert(!isPerr, "stale-error-after-valid-token")
+			continue
+		}
+		if len(data) == 0 && z.Offset() >= n {
+			// the end of the input: io.EOF now, or one fresh error (e.g. identifier directly after
+			// a number) and io.EOF on the next call; never the position of an earlier error again
+			if l.Err() != io.EOF {
+				tt, _ = l.Next()
+				vAssert(tt == ErrorToken && l.Err() == io.EOF, "lexer-end-reports-earlier-error")
+			}
+			vReach("end")
+			return
+		}
+		stop := z.Offset() - 1 // the illegal (ASCII) character is the last byte stepped over
+		perr, ok := l.Err().(*parse.Error)
+		vAssert(ok, "error-token-without-parse-error")
+		if ok && len(data) > 0 {
+			line, col, ctx := parse.Position(bytes.NewBuffer(append([]byte(nil), src...)), stop)
+			vAssert(perr.Line == line && perr.Column == col, "lexer-error-position")
+			vAssert(perr.Context == ctx, "lexer-error-context")
+			vReach("illegal")
+		}
+	}
 }
